@@ -121,7 +121,8 @@ Theorem seq_try_fails_when_locked c s a sh k e :
   exists s', seq_lock c s a sh k = ROk s' OTryFail /\
     s_guards s' = s_guards s /\ s_ops s' = s_ops s /\ (forall k', vof s' k' = vof s k') /\
     (forall k', In k' (akeys (s_ents s')) <-> In k' (akeys (s_ents s))) /\
-    (forall k' e', aget k' (s_ents s') = Some e' -> exists e0, aget k' (s_ents s) = Some e0 /\ e_owner e' = e_owner e0).
+    (forall k' e', aget k' (s_ents s') = Some e' -> exists e0, aget k' (s_ents s) = Some e0 /\ e_owner e' = e_owner e0) /\
+    s_gid s' = s_gid s.
 Proof.
   intros HI Ha Hsh He Ho. unfold seq_lock. rewrite (start_lock c s a sh k Ha). cbn [then_].
   set (s1 := set_pc s a (PEnter sh k None)).
@@ -164,7 +165,7 @@ Proof.
   { intros k'. unfold ents2. rewrite aset_aset, aget_aset, promote_if_lru_get.
     destruct (Nat.eqb k' k); auto. f_equal. unfold e2. destruct e as [v0 ow q r]; unfold set_repl; cbn.
     replace (r - 0) with r by lia. reflexivity. }
-  split; [reflexivity|]. split; [exact Hops|]. split; [|split].
+  split; [reflexivity|]. split; [exact Hops|]. split; [|split; [|split; [|reflexivity]]].
   - intros k'. unfold vof, vof_e. cbn. rewrite G. destruct (Nat.eqb_spec k' k); [subst; rewrite He|]; auto.
   - intros k'. cbn. rewrite !keys_aget_iff, G. destruct (Nat.eqb_spec k' k); [subst; rewrite He|]; split; eauto.
   - intros k' e'. cbn. rewrite G. destruct (Nat.eqb_spec k' k); [subst|]; intros H; inv H; eauto.
